@@ -1017,6 +1017,32 @@ def misc_hazard_rules(ctx: Ctx, functions) -> int:
             return True
         return isinstance(e, ast.Name) and e.id in field_locals
 
+    def numeric_expr(e, depth=0):
+        """arithmetic on numeric message fields (`b.time - a.time`): a number, 0 included"""
+        if isinstance(e, ast.Attribute) and e.attr in NUMERIC_FIELDS:
+            return True
+        if isinstance(e, ast.BinOp) and isinstance(e.op, (ast.Add, ast.Sub, ast.Mult, ast.FloorDiv, ast.Mod)) and depth < 4:
+            return numeric_expr(e.left, depth + 1) or numeric_expr(e.right, depth + 1)
+        return False
+
+    def numeric_call(t, fi_):
+        """a call of a method / function of the library some `return` of which is such a number (the others may be None):
+        `helper(..) or default` replaces a legitimate 0 by the default"""
+        if not isinstance(t, ast.Call):
+            return False
+        h = None
+        if isinstance(t.func, ast.Attribute) and isinstance(t.func.value, ast.Name) and t.func.value.id in ("self", "cls", fi_.cls or "") and fi_.cls:
+            h = p.lookup_method(fi_.cls, t.func.attr)
+        elif isinstance(t.func, ast.Name):
+            h = p.module_funcs.get(t.func.id) if hasattr(p, "module_funcs") else None
+        if h is None:
+            return False
+        rets = [r.value for r in ast.walk(h.node) if isinstance(r, ast.Return) and r.value is not None]
+        vals = []
+        for v in rets:
+            vals += [v.body, v.orelse] if isinstance(v, ast.IfExp) else [v]
+        return any(numeric_expr(v) for v in vals)
+
     def truth_operands(t):
         if isinstance(t, ast.BoolOp):
             for v in t.values:
@@ -1150,7 +1176,7 @@ def misc_hazard_rules(ctx: Ctx, functions) -> int:
                 tests = list(truth_operands(x.test))
             for t in tests:
                 n += 1
-                if field_expr(t, field_locals):
+                if field_expr(t, field_locals) or numeric_call(t, fi):
                     bad["TRUTHY"].append((fi, t))
                 elif isinstance(t, ast.Name) and t.id in always_true:
                     bad["OBJTRUTH"].append((fi, t))
